@@ -153,10 +153,20 @@ void lemma_F_H_badinput(void)
 double pow(double, double); double sqrt(double);
 #define SD(x) sin((x) * DEGRAD)
 #define CD(x) cos((x) * DEGRAD)
+/* refutation pre-pass: one concrete cell (with the concrete libm interpretation of libm_uf.c both sides constant-fold) */
+#if defined(VERIF_CBMC) && defined(V_RESTRICT_LEAVES)
+#define RESTRICT_CELL(c) __CPROVER_assume((c).a == 2.0 && (c).b == 4.0 && (c).c == 8.0 && (c).alpha == 64.0 && (c).beta == 80.0 && (c).gamma == 96.0 && (c).volume == 16.0)
+#else
+#define RESTRICT_CELL(c)
+#endif
 void lemma_dSpacing(void)
 {
   Crystal_Struct c; ND_INT(h); ND_INT(k); ND_INT(l); ND_ERRSLOT(error);
   double r, e;
+  RESTRICT_CELL(c);
+#if defined(VERIF_CBMC) && defined(V_RESTRICT_LEAVES)
+  __CPROVER_assume(h == 1 && k == -2 && l == 3);
+#endif
   GHOST_RESET();
   r = Crystal_dSpacing(&c, h, k, l, error);
   if (h == 0 && k == 0 && l == 0) { VASSERT(FAILS(r, error), "Crystal_dSpacing: the (0,0,0) triple is an error"); }
@@ -176,6 +186,7 @@ void lemma_UnitCellVolume(void)
 {
   Crystal_Struct c; ND_ERRSLOT(error);
   double r, e;
+  RESTRICT_CELL(c);
   GHOST_RESET();
   r = Crystal_UnitCellVolume(&c, error);
   e = c.a * c.b * c.c * sqrt((1 - pow(CD(c.alpha), 2) - pow(CD(c.beta), 2) - pow(CD(c.gamma), 2)) + 2 * CD(c.alpha) * CD(c.beta) * CD(c.gamma));
